@@ -9,6 +9,7 @@ import (
 	"time"
 
 	"github.com/go-openapi/loads"
+	"github.com/go-openapi/spec"
 	"github.com/go-openapi/strfmt"
 	"github.com/go-openapi/validate"
 
@@ -123,7 +124,7 @@ func specEditCorpus(quick bool, extraNames bool, depth2 bool) []specEdit {
 // that interact with special-cased keys, name edits and reference edits.
 func quickEdit(desc string) bool {
 	switch {
-	case strings.HasPrefix(desc, "delete "), strings.HasSuffix(desc, " to null"), strings.HasPrefix(desc, "set "), strings.HasPrefix(desc, "add $ref \"#/definitions/Nope"):
+	case strings.HasPrefix(desc, "delete "), strings.HasSuffix(desc, " to null"), strings.HasPrefix(desc, "set "), strings.HasPrefix(desc, "add $ref \"#/definitions/Nope"), strings.HasPrefix(desc, "add patternProperties"):
 		return true
 	case strings.HasPrefix(desc, "rename ") && (strings.HasSuffix(desc, `to "id"`) || strings.HasSuffix(desc, `to "a.a"`) || strings.HasSuffix(desc, `to ""`)):
 		return true
@@ -176,8 +177,41 @@ func c02(c *hx.Ctx) int {
 	})
 }
 
+// c02prelude: some other part of the process has validated a document with its own, relaxed copy of
+// the Swagger 2.0 schema (same declared id). Whatever the library remembers from that must not leak
+// into validations against the official schema.
+func c02prelude() {
+	defer func() {
+		if recover() != nil {
+			resetPools()
+		}
+	}()
+	custom := spec.MustLoadSwagger20Schema()
+	if def, ok := custom.Definitions["schema"]; ok {
+		def.Properties["nullable"] = *spec.BoolProperty()
+		def.AdditionalProperties = &spec.SchemaOrBool{Allows: true} // the relaxed copy accepts any extra member in a schema object
+		custom.Definitions["schema"] = def
+	}
+	if def, ok := custom.Definitions["pathParameterSubSchema"]; ok {
+		def.Required = nil
+		custom.Definitions["pathParameterSubSchema"] = def
+	}
+	for _, docText := range []string{specSeeds(false)["params"], specSeeds(false)["defs"]} {
+		doc, err := loads.Analyzed(json.RawMessage(docText), "")
+		if err != nil {
+			continue
+		}
+		for _, cont := range []bool{false, true} {
+			sv := validate.NewSpecValidator(custom, strfmt.Default)
+			sv.SetContinueOnErrors(cont)
+			sv.Validate(doc)
+		}
+	}
+}
+
 func c02worker(c *hx.Ctx) int {
 	rep := hx.NewReport()
+	c02prelude()
 	corpus := specEditCorpus(c.Quick(), false, !c.Quick())
 	reported := map[string]bool{}
 	for i, e := range corpus {
@@ -336,6 +370,15 @@ func refVerdictNumber(schemaText, instText string) (valid bool, ok bool) {
 // ---- C07 -----------------------------------------------------------------------------------
 
 func c07(c *hx.Ctx) int {
+	if len(c.Args) == 2 && c.Args[0] == "--doc" {
+		// debugging aid: print the document of one edit ("seed: description")
+		for _, e := range specEditCorpus(false, true, false) {
+			if e.Seed+": "+e.Desc == c.Args[1] {
+				fmt.Println(e.Doc)
+			}
+		}
+		return 0
+	}
 	if c.Worker >= 0 {
 		return c07worker(c)
 	}
@@ -396,7 +439,10 @@ func c07class(p string) string {
 		site = p[i:]
 		p = p[:i]
 	}
-	for _, cut := range []string{" 0x", "[recovered]", "open /", ": open ", ": object has no ", ": JSON pointer"} {
+	if i := strings.Index(p, "Invalid schema provided to SchemaValidator"); i >= 0 {
+		p = p[:i+len("Invalid schema provided to SchemaValidator")] // the rest names the unresolvable reference
+	}
+	for _, cut := range []string{" 0x", "[recovered]", "open /", ": open "} {
 		if i := strings.Index(p, cut); i > 0 {
 			p = p[:i]
 		}
@@ -447,6 +493,10 @@ func c07worker(c *hx.Ctx) int {
 				continue
 			}
 			cl := c07class(msg)
+			if strings.Contains(cl, "Invalid schema provided") {
+				// reached in different ways with and without continue-on-errors: two root causes
+				cl += fmt.Sprintf(" (continue-on-errors=%v)", cont)
+			}
 			// keep the smallest document of each class (deterministic: shortest text, then lexical)
 			if old, ok := byClass[cl]; !ok || len(e.Doc) < len(old.e.Doc) || (len(e.Doc) == len(old.e.Doc) && e.Doc < old.e.Doc) {
 				byClass[cl] = found{e, cont, msg}
